@@ -400,8 +400,8 @@ static const char* insideOutside(int cons, int pos) {
     }
 }
 // second governed mobilizer (D, or A when the primary is D), set up before the history
-enum Second { SNone, SLockP, SSteady, SLockAtV, SSinA, SLockAtA, NSEC };
-static const char* secName(int k) { static const char* n[] = {"none", "lock(P)", "Motion::Steady", "lockAt(values,V)", "Motion::Sinusoid(A)", "lockAt(values,A)"}; return n[k]; }
+enum Second { SNone, SLockP, SSteady, SSinA, SLockAtV, SLockAtA, NSEC };
+static const char* secName(int k) { static const char* n[] = {"none", "lock(P)", "Motion::Steady", "Motion::Sinusoid(A)", "lockAt(values,V)", "lockAt(values,A)"}; return n[k]; }
 
 enum COp { KLockP, KLockV, KLockA, KLockAtP, KLockAtV, KLockAtA, KUnlock, KMotionDisable, KMotionEnable, KSetQ, KSetU, KSetTime, KPrescribe, KProject, KRealizeAcc, KSetOthers, KConsDisable, KConsEnable, NCOPS };
 static const char* copName(int o) { static const char* n[] = {"lock(P)", "lock(V)", "lock(A)", "lockAt(values,P)", "lockAt(values,V)", "lockAt(values,A)", "unlock", "motion.disable", "motion.enable", "setQ(governed)", "setU(governed)", "setTime(0.3)", "prescribe", "project", "realize(Acceleration)", "setQU(others)", "constraint0.disable", "constraint0.enable"}; return n[o]; }
@@ -513,7 +513,7 @@ static Real minEigSym(std::vector<std::vector<Real>> A) {
     Real m = Infinity; for (int i = 0; i < n; ++i) m = std::min(m, A[i][i]); return m;
 }
 
-struct CTol { static constexpr double twin = 1e-10, udoterr = 1e-10, fd = 1e-6, power = 1e-12, workless = 1e-6, proj = 1e-8; };
+struct CTol { static constexpr double twin = 1e-11, udoterr = 1e-11, fd = 1e-6, power = 1e-12, proj = 1e-8; };
 
 static Result runConstrained(verif::Run& run, const CCase& c, const std::vector<int>& hist, int vs) {
     Result R; Fails& F = R.F;
@@ -528,11 +528,21 @@ static Result runConstrained(verif::Run& run, const CCase& c, const std::vector<
       if (c.gov == GDefLockP) { g.lockLevel = 0; Vector q = gb.getQAsVector(s); g.lockVal.assign(&q[0], &q[0] + q.size()); }
       if (c.gov == GDefLockV) { g.lockLevel = 1; g.lockVal.assign(gb.getNumU(s), 0.0); }
       if (c.gov == GDefLockA) g.lockLevel = 2; }
+    std::string histDesc; for (int o : hist) histDesc += std::string(copName(o)) + ";";
     auto quatMotionActive = [&] { for (int b = 0; b < nb; ++b) if (G[b].activeLevel() == 0 && !G[b].byLock() && mb::kindHasQuaternion(M.specs[b].kind) && !c.euler && G[b].gov != GQuatP) return true; return false; };
     // item 4: prescribed values kept and constraints satisfied after project()
     auto doProject = [&](const char* where) -> bool {
         try { M.system.project(s, 1e-10); }
-        catch (const std::exception&) { run.count(std::string("project-threw/") + cconsName(c.cons)); return false; }
+        catch (const std::exception& e) {
+            run.count(std::string("project-threw/") + cconsName(c.cons));
+            std::string msg = e.what(); size_t p = msg.find("Error detected by"); if (p != std::string::npos) msg = msg.substr(p);      // drop the file/line prefix
+            for (char& ch : msg) if (ch == '\n' || ch == '\t' || ch == '"' || ch == '\\') ch = ' ';
+            for (char& ch : msg) if (ch >= '0' && ch <= '9') ch = '#';                                                                // numbers vary; keep the message class
+            run.count("project-threw-message/" + msg.substr(0, 110));
+            if (c.cons == CNone || c.cons == CAccel) run.count("project-threw-without-position-or-velocity-constraint/" + c.str() + " [" + histDesc + "]");   // only quaternion normalisation can be violated here
+            if (run.verbose) printf("project threw: %s\n", e.what());
+            return false;
+        }
         run.count(std::string("project-succeeded/") + cconsName(c.cons));
         M.system.realize(s, Stage::Velocity);
         for (int b = 0; b < nb; ++b) checkGoverned(M, s, b, G[b], F, false);
@@ -695,10 +705,15 @@ static Result runConstrained(verif::Run& run, const CCase& c, const std::vector<
             if (!(std::abs(pc - ref) <= CTol::power * sc)) F.add("calcConstraintPower-not-documented-formula", "power " + verif::fmtd(pc) + " expected " + verif::fmtd(ref));
             Real sum = 0; for (auto& k : S.cons) if (!k.isDisabled(s)) sum += k.calcPower(s);
             if (!(std::abs(pc - sum) <= CTol::power * sc)) F.add("calcConstraintPower-not-sum-of-Constraint::calcPower", "power " + verif::fmtd(pc) + " sum " + verif::fmtd(sum));
-            // scleronomic holonomic constraints do no work on the velocity manifold
-            if (onManifold && (c.cons == CRodBC || c.cons == CBallBC || c.cons == CRodGD || c.cons == CRodAD || c.cons == CCouplerFree || c.cons == CCouplerGov)) {
-                run.residual("workless-constraint-power-on-manifold", std::abs(pc) / sc, CTol::workless, [&] { return where; });
-                if (!(std::abs(pc) <= CTol::workless * sc)) F.add("workless-constraint-does-work-on-manifold", "power " + verif::fmtd(pc));
+            // scleronomic holonomic constraints: forces ~G lambda, velocity error G u, so power = -lambda . verr exactly; in
+            // particular they do no work on the velocity manifold ("within machine precision of zero")
+            if (c.cons == CRodBC || c.cons == CBallBC || c.cons == CRodGD || c.cons == CRodAD || c.cons == CCouplerFree || c.cons == CCouplerGov) {
+                const Vector& ue = s.getUErr(); Real lv = 0, ls = 0;
+                for (int i = 0; i < m && i < ue.size(); ++i) { lv += lambda[i] * ue[i]; ls += std::abs(lambda[i] * ue[i]); }
+                Real l1 = 0; for (int i = 0; i < m; ++i) l1 += std::abs(lambda[i]);
+                const Real r = std::abs(pc + lv) / (sc + ls + l1 * gNorm * uScale);     // (rounding floor of verr = G u times |lambda|)
+                run.residual(onManifold ? "workless-constraint-power-on-manifold" : "workless-constraint-power-vs-minus-lambda-dot-verr", r, CTol::power, [&] { return where; });
+                if (!(r <= CTol::power)) F.add(onManifold ? "workless-constraint-does-work-on-manifold" : "workless-constraint-power-not-minus-lambda-dot-verr", "power " + verif::fmtd(pc) + " lambda.verr " + verif::fmtd(lv));
             }
         }
         oh = verif::hashMix(oh, verif::hashPod(m * 1000 + nMult * 10 + (wellPosed ? 1 : 0) + (onManifold ? 2 : 0)));
@@ -750,11 +765,11 @@ int main(int argc, char** argv) {
     const int depth = th ? 3 : 2;
     const int vs = (int)(((run.seed % 3) + 3) % 3);
     run.rule = "E2. Section histories: case = (governed mobilizer kind (16) x direction x role{base,tip} x coordinate option x governance kind{free, Steady, Sinusoid P/V/A, Custom P/V/A (A: udot(t,q,u) through calcPrescribedAcceleration only), Custom V depending on another mobilizer's q, unit-quaternion Custom P, lockByDefault P/V/A}) x every operation history of depth <= 2 (quick) / 3 (thorough) over 16 operations (lock, and lockAt with explicit non-zero values, at each of the three levels; unlock; Motion disable/enable; Steady.setRate; set q/u; set time; prescribe; realize). "
-               "Section constrained: four-body tree Ground-A-B-D, Ground-C; case = (governed kind x governed position A/B/C/D x coordinate option x 13 governance kinds x 10 constraint sets {none, Rod(B,C), Ball(B,C), Rod(Ground,D), Rod(A,D) (ancestor A), ConstantSpeed and ConstantAcceleration on a free mobility, CoordinateCoupler(free,free), CoordinateCoupler(governed,free), Rod+ConstantAcceleration+Coupler} (the governed mobilizer is inside the loop for some positions and outside for others) x second governed mobilizer {none, lock(P), Motion::Steady; thorough also lockAt(V), Sinusoid(A), lockAt(A)}) x every history of depth <= 1 over 18 operations (the 6 lock operations, unlock, Motion disable/enable, set q/u, set time, prescribe, project, realize, set the other bodies' q/u, constraint disable/enable); thorough adds every depth-2 history with no second governed mobilizer. "
+               "Section constrained: four-body tree Ground-A-B-D, Ground-C; case = (governed kind x governed position A/B/C/D x coordinate option x 13 governance kinds x 10 constraint sets {none, Rod(B,C), Ball(B,C), Rod(Ground,D), Rod(A,D) (ancestor A), ConstantSpeed and ConstantAcceleration on a free mobility, CoordinateCoupler(free,free), CoordinateCoupler(governed,free), Rod+ConstantAcceleration+Coupler} (the governed mobilizer is inside the loop for some positions and outside for others) x second governed mobilizer {none, lock(P), Motion::Steady, Motion::Sinusoid(A); thorough also lockAt(V), lockAt(A) with non-zero values}) x every history of depth <= 1 over 18 operations (the 6 lock operations, unlock, Motion disable/enable, set q/u, set time, prescribe, project, realize, set the other bodies' q/u, constraint disable/enable); thorough adds every depth-2 history with no second governed mobilizer. "
                "Oracle after each history as described in the header; distinct = distinct (case, history); non-trivial = the history was accepted and judged";
     run.assumptions = {"two-body trees (governed body + a Pin companion) in section histories; one fixed four-body tree in section constrained with a generic start state from value table seed%3",
         "position-level Motions on quaternion coordinates are skipped (counted) when the library refuses them",
-        "prescribed values compared to 1e-12 relative (locks bitwise), udot against the twin to 1e-11 relative (1e-10 with constraints)",
+        "prescribed values compared to 1e-12 relative (locks bitwise), udot against the twin to 1e-11 relative",
         "constraint acceleration errors are demanded to vanish only when the rows of G restricted to the free accelerations are independent (smallest eigenvalue of the row-normalised Gram matrix > 1e-4, computed in the harness); otherwise counted as unspecified",
         "project() is called with accuracy 1e-10; when it throws (state too far from the manifold, or constraint inconsistent with the prescription) the projected phase is skipped and counted"};
     const int kinds[] = {mb::KPin, mb::KSlider, mb::KUniversal, mb::KCylinder, mb::KPlanar, mb::KGimbal, mb::KBushing, mb::KBall, mb::KFree, mb::KTranslation, mb::KScrew, mb::KEllipsoid, mb::KBendStretch, mb::KSphericalDefault, mb::KCustomPin, mb::KFBPlanar};
@@ -772,7 +787,7 @@ int main(int argc, char** argv) {
     struct KD { int kind, dir; };
     std::vector<KD> ckinds = {{mb::KPin, 0}, {mb::KUniversal, 0}, {mb::KBall, 0}, {mb::KFree, 0}};
     if (th) for (KD x : std::vector<KD>{{mb::KPin, 1}, {mb::KSlider, 0}, {mb::KPlanar, 0}, {mb::KGimbal, 0}, {mb::KFree, 1}, {mb::KEllipsoid, 0}}) ckinds.push_back(x);
-    const int nsec = th ? (int)NSEC : 3;
+    const int nsec = th ? (int)NSEC : 4;
     std::vector<CCase> ccases; std::vector<int> cdepth;
     for (int pass = 0; pass < (th ? 2 : 1); ++pass)            // pass 0: depth <= 1, all second governors; pass 1 (thorough): depth 2 exactly, no second governor, the four quick kinds
         for (size_t ki = 0; ki < (pass ? (size_t)4 : ckinds.size()); ++ki) for (int pos = 0; pos < 4; ++pos) for (int eu = 0; eu < 2; ++eu) for (int g = 0; g < NGOV; ++g) for (int cn = 0; cn < NCC; ++cn) for (int sec = 0; sec < (pass ? 1 : nsec); ++sec) {
